@@ -355,6 +355,14 @@ class Exec:
             if len(s.targets) != 1:
                 raise AnalysisError("multiple assignment targets")
             t = s.targets[0]
+            if isinstance(s.value, ast.IfExp):
+                # x = a if c else b  ==  if c: x = a  else: x = b
+                out = []
+                for (s2, tv) in self.fork(st, s.value.test):
+                    a2 = ast.Assign(targets=s.targets, value=s.value.body if tv else s.value.orelse, type_comment=None)
+                    ast.copy_location(a2, s)
+                    out.extend(self.stmt(a2, s2))
+                return out
             # file aliasing
             fid = self.fid_of(st, s.value) if isinstance(s.value, (ast.Name, ast.Attribute)) else None
             if fid is not None:
